@@ -10,6 +10,7 @@ import math
 from mc import canon, charts, core, starts
 
 ID = "C12"
+LARGE = dict(quick="stack of 310 rows x core alphabet", thorough="stacks of 310 and 1110 rows x core / full alphabet")
 TITLE = "Stacking writes through: editing the stack equals editing each list"
 RULE = (
     "history BFS: a state is a distinct canonical chart (classes, columns, dtypes, labels, cells) reached by a sequence of stack operations; "
